@@ -261,6 +261,31 @@ def sibling_container_cases(ctx):
     return cases
 
 
+def subclass_and_degenerate_cases(ctx):
+    """directed: values that are instances of a SUBCLASS of what the schema names (datetime into a date schema, bool into an
+    int schema, str / int / list / dict subclasses) — the result carries exactly the value given; and degenerate containers
+    (a dict schema with NO keys, an element list with no elements, a relaxed dict with only the marker) given empty and
+    non-empty values — `{}` declared is not `schema.dict`"""
+    import datetime
+    from d42 import optional, schema
+    from .gen_value import MyDict, MyInt, MyList, MyStr
+    dt = datetime.datetime(2024, 2, 29, 12, 30, 15)
+    aware = datetime.datetime(2024, 2, 29, 12, 30, tzinfo=datetime.timezone.utc)
+    cases = []
+    for s, v in ((schema.date, dt), (schema.date, aware), (schema.dict({"d": schema.date}), {"d": dt}), (schema.list(schema.date), [dt, dt.date()]),
+                 (schema.any(schema.date, schema.str), dt), (schema.list([schema.date, ...]), [dt]), (schema.date | schema.none, dt),
+                 (schema.int, True), (schema.int.min(0), False), (schema.dict({"n": schema.int}), {"n": True}), (schema.list(schema.int), [True, 0, False, 1]),
+                 (schema.str, MyStr("abc")), (schema.int, MyInt(3)), (schema.list(schema.int), MyList([1, 2])), (schema.dict({"a": schema.int}), MyDict(a=1)),
+                 (schema.any(schema.int, schema.bool), True), (schema.any(schema.bool, schema.int), 1)):
+        cases.append(SubCase(s, v, v, "subclass-value"))
+    for s in (schema.dict({}), schema.dict({...: ...}), schema.list([]), schema.list([...]), schema.dict({"in": schema.dict({})}),
+              schema.list([schema.dict({})]), schema.any(schema.dict({}), schema.int), schema.dict({optional("o"): schema.dict({})}),
+              schema.list(schema.dict({})), schema.dict({"l": schema.list([])})):
+        for v in ({}, {"a": 1}, [], [1], {"in": {}}, {"in": {"a": 1}}, [{}], [{"a": 1}], {"o": {}}, {"o": {"x": 1}}, {"l": []}, {"l": [1]}, 5):
+            cases.append(SubCase(s, v, v, "degenerate-container"))
+    return cases
+
+
 def untyped_zoo_cases(ctx):
     """directed: values of kinds from_native does NOT convert (tuples, sets, Decimal, bytearray, ranges, opaque objects …)
     alone and nested at every untyped position. On a correct tree substitution refuses them; a tree that lets one through
